@@ -399,6 +399,12 @@ func (e *env) matchPrefix(items []cutItem, minK int, what string, last *[2]uint6
 				if r.state == opHeld {
 					if _, h := q.held[r.op.GetId()]; !h {
 						r.state, r.unacked = opProgrammed, true
+					} else if !implHeld[r.op.GetId()] {
+						// sameHeld accepted its absence: a held REPLACE whose target is gone was failed by a retry whose
+						// answer travelled on a stream that was cut. It is finished - it must not be expected to be held
+						// (or to resolve) once its target exists again.
+						r.state, r.unacked = opFailed, true
+						e.probe("cut: held REPLACE of a deleted target failed on a retry whose answer was lost")
 					}
 				}
 			}
